@@ -114,6 +114,11 @@ func roundTrip(b *bootguard.BootGuard, doc int) (*bootguard.BootGuard, error) {
 	if genOf(b) == 2 {
 		un = un[:b.VData.CBNTbpm.KeySignatureOffset]
 	} else {
+		// BG 1.0: the only unsigned form NewBPM reads is the manifest up to and including
+		// the header of the signature element ("__PMSG__" + version).  The bpm-gen-v1 --cut
+		// output ([:PMSEOffset()], exactly the bytes to be signed, like the other three
+		// --cut outputs) is for an external signer: fiano's reader insists on a signature
+		// element; the uncut unsigned manifest ends in an empty key (unexpected EOF).
 		un = un[:b.VData.BGbpm.PMSEOffset()+9]
 	}
 	return bootguard.NewBPM(bytes.NewReader(un))
@@ -159,8 +164,19 @@ func (r *run) signAll() {
 			}
 			// ---- BG 1.0 BPM
 			if b, d, err := buildBgBPM(rg, s%7, s%2 == 1); err == nil {
+				if s%3 == 2 {
+					// unsigned manifest through a file, then bpm-sign
+					if b2, err := roundTrip(b, 1); err == nil {
+						b = b2
+						d["flow"] = "file"
+					} else {
+						c.Count("bgbpm-unsigned-file-not-readable")
+					}
+				}
 				r.signOne(b, 1, "RSASSA", "SHA256", bk, d, fullSearch(), fmt.Sprintf("bgbpm-%s-%d", bk, s))
-				r.harnessSignBgBPM(b, bk, d, fmt.Sprintf("bgbpm-h-%s-%d", bk, s))
+				if s < 2 {
+					r.harnessSignBgBPM(b, bk, d, fmt.Sprintf("bgbpm-h-%s-%d", bk, s))
+				}
 			} else {
 				c.OracleFail(-1, "cannot build BG BPM: "+err.Error(), "harness", nil)
 			}
@@ -225,8 +241,8 @@ func (r *run) signAll() {
 }
 
 // harnessSignBgBPM produces a BG 1.0 BPM signed over the range VerifyBPM checks
-// ([:PMSEOffset()]) with fiano's own SetSignature: the suite cannot produce a
-// verifying BG 1.0 BPM itself, and VerifyBPM still has to be swept.
+// ([:PMSEOffset()]) with fiano's own SetSignature, independently of SignBPM: the
+// sweep of VerifyBPM does not depend on SignBPM cutting at the right place.
 func (r *run) harnessSignBgBPM(b *bootguard.BootGuard, keyName string, desc shapeDesc, name string) {
 	c := r.c
 	pre, err := pmanOf(b, 1)
